@@ -25,11 +25,12 @@ OV_LS = 1024
 SCRATCH = {
   "cM", "cqLD", "crhs", "cx", "cJ", "cMa", "cqfrc_smooth", "cqacc_smooth", "cqacc_warmstart", "cqacc",
   "cqfrc_constraint", "cdof_dof", "dof_cdof", "ncdof", "map_efc2iefc", "map_iefc2efc", "efc_islandid",
+  "island_dofadr", "island_idofadr", "island_nv", "island_nefc", "island_ne", "island_nf", "island_iefcadr", "map_dof2idof",
+  "map_idof2dof", "dof_islandid",  # sized ntree / nv, only the first nisland / nidof entries are (re)written
   "qLU", "qfrc_inverse", "wrap_obj", "wrap_xpos", "body_awake_ind", "dof_awake_ind", "flex_aabb_min", "flex_aabb_max",
 }  # fmt: skip
 # written only when sleeping (and therefore island discovery) is enabled; otherwise they keep their creation-time values
-ISLAND_FIELDS = {"nisland", "nidof", "tree_island", "dof_island", "island_dofadr", "island_idofadr", "island_nv", "island_nefc",
-                 "island_ne", "island_nf", "island_iefcadr", "map_dof2idof", "map_idof2dof", "dof_islandid"}  # fmt: skip
+ISLAND_FIELDS = {"nisland", "nidof", "tree_island", "dof_island"}
 AWAKE_FIELDS = {"ntree_awake", "nbody_awake", "nv_awake", "tree_awake", "body_awake", "tree_asleep"}
 # storage of the inertia factorisation: which cells are meaningful depends on the block layout chosen at put_model
 # (reciprocal diagonals are written only for compact/sparse blocks); errors in it surface in qacc_smooth
@@ -42,6 +43,7 @@ CONTACT_FIELDS = ["dist", "pos", "frame", "includemargin", "friction", "solref",
 EFC_ROW_FIELDS = ["type", "id", "pos", "margin", "vel", "aref", "frictionloss", "force"]
 EFC_PAD_FIELDS = ["D", "state"]
 
+CONTACT_TYPE_MIN = int(T.ConstraintType.CONTACT_FRICTIONLESS)
 _WORLD_FIELDS = None
 
 
@@ -237,6 +239,16 @@ def world_view(obs, w, contacts=True, efc=True):
     nefc = int(min(obs["nefc"][w], obs["_njmax"]))
     for f in EFC_ROW_FIELDS + EFC_PAD_FIELDS:
       v["efc." + f] = e[f][w, :nefc]
+    # contact rows carry the index of their contact in the shared contact buffer, which legitimately depends on how many
+    # contacts the other worlds emitted: canonicalise to the rank of the contact among this world's contacts
+    ids = v["efc.id"].copy()
+    crow = v["efc.type"] >= CONTACT_TYPE_MIN
+    if crow.any():
+      c = obs["contact"]
+      mine = np.nonzero(c["worldid"] == w)[0]
+      rank = {int(g): r for r, g in enumerate(mine)}
+      ids[crow] = [rank.get(int(g), -1000 - int(g)) for g in ids[crow]]
+    v["efc.id"] = ids
     v["efc.J"] = efc_J_rows(obs, w)
   return v
 
